@@ -109,11 +109,24 @@ func (e *PathMatchExpression) parsex(l *lex) {
 //	   [c, d, e, f]
 //	   [c, d, g, h]
 func (e *PathMatchExpression) expandPaths(sub *PathMatchExpression) {
+	if len(sub.paths) == 0 {
+		// empty group
+		return
+	}
+	if len(e.paths) == 0 {
+		// group at the start of an expression
+		e.paths = make([]segments, len(sub.paths))
+		for j, src := range sub.paths {
+			e.paths[j] = append(segments{}, src...)
+		}
+		return
+	}
 	expanded := make([]segments, len(e.paths)*len(sub.paths))
 	for i, dest := range e.paths {
 		for j, src := range sub.paths {
 			k := (i * len(sub.paths)) + j
-			expanded[k] = append(dest, src...)
+			// each expanded path needs its own copy, dest may have spare capacity
+			expanded[k] = append(append(segments{}, dest...), src...)
 		}
 	}
 	e.paths = expanded
